@@ -68,13 +68,14 @@ type corrResult struct {
 	PreDate      string   `json:"pre_date"`
 	PreReason    string   `json:"pre_reason"`
 	PreExt       []string `json:"pre_ext"`
+	TaxExt       []string `json:"tax_ext"` // extension keys on the correction's own tax object (an addon may keep the requested ones there)
 	PreStamps    []string `json:"pre_stamps"`
 	PreStampVals []string `json:"pre_stamp_vals"` // provider=value of the stamps in the preceding row
 	PreHasTax    bool     `json:"pre_hastax"`
-	PreTaxSame   bool     `json:"pre_taxsame"` // preceding.tax equals the source's tax summary
-	Valid        bool     `json:"valid"`       // the result validates
+	PreTaxSame   bool     `json:"pre_taxsame"`  // preceding.tax equals the source's tax summary
+	Valid        bool     `json:"valid"`        // the result validates
 	RepPreSame   bool     `json:"rep_pre_same"` // a replica of the correction keeps the correction's preceding rows as they are
-	Business     string   `json:"business"`    // fingerprint of the business content
+	Business     string   `json:"business"`     // fingerprint of the business content
 }
 
 type corrEvent struct {
@@ -149,7 +150,7 @@ func business(inv *bill.Invoice) string {
 }
 
 func projectCorr(res *gobl.Envelope, src *gobl.Envelope, srcInv *bill.Invoice) corrResult {
-	r := corrResult{PreExt: []string{}, PreStamps: []string{}, PreStampVals: []string{}}
+	r := corrResult{PreExt: []string{}, TaxExt: []string{}, PreStamps: []string{}, PreStampVals: []string{}}
 	r.NSigs = len(res.Signatures)
 	if res.Head != nil {
 		r.NStamps = len(res.Head.Stamps)
@@ -160,6 +161,12 @@ func projectCorr(res *gobl.Envelope, src *gobl.Envelope, srcInv *bill.Invoice) c
 	inv, ok := res.Extract().(*bill.Invoice)
 	if !ok {
 		return r
+	}
+	if inv.Tax != nil {
+		for k := range inv.Tax.Ext {
+			r.TaxExt = append(r.TaxExt, string(k))
+		}
+		sort.Strings(r.TaxExt)
 	}
 	r.RepPreSame = true
 	func() {
@@ -389,7 +396,7 @@ func corrRun(repo, combosFile string, maxSrc int, bulkBin, goblBin string, cliEv
 			before, _ := json.Marshal(env)
 			ev := corrEvent{K: "correct", Src: src.name, Path: "lib", Combo: c, Defs: defs, SrcUUID: inv.UUID.String(), SrcType: string(inv.Type),
 				SrcSeries: string(inv.Series), SrcCode: string(inv.Code), SrcDate: inv.IssueDate.String(), SrcStamps: []string{}, SrcBusiness: business(inv),
-				SrcHasTax: inv.Totals != nil && inv.Totals.Taxes != nil, Today: today, ReqExt: []string{}, ReqStamps: []string{}, SrcStampVals: []string{}, ReqStampVals: []string{}, R: corrResult{PreExt: []string{}, PreStamps: []string{}, PreStampVals: []string{}}}
+				SrcHasTax: inv.Totals != nil && inv.Totals.Taxes != nil, Today: today, ReqExt: []string{}, ReqStamps: []string{}, SrcStampVals: []string{}, ReqStampVals: []string{}, R: corrResult{PreExt: []string{}, TaxExt: []string{}, PreStamps: []string{}, PreStampVals: []string{}}}
 			for _, s := range env.Head.Stamps {
 				ev.SrcStamps = append(ev.SrcStamps, string(s.Provider))
 				ev.SrcStampVals = append(ev.SrcStampVals, string(s.Provider)+"="+s.Value)
@@ -470,6 +477,34 @@ func corrRun(repo, combosFile string, maxSrc int, bulkBin, goblBin string, cliEv
 			after, _ := json.Marshal(env)
 			lib.SourceIntact = bytes.Equal(before, after)
 			w.Emit(lib)
+			// ---- library, the header's own stamps handed over explicitly together with an options object
+			if env.Head != nil && len(env.Head.Stamps) > 0 {
+				ls := ev
+				ls.Path = "lib-stamps-data"
+				func() {
+					defer func() {
+						if p := recover(); p != nil {
+							ls.Panic, ls.Err = true, fmt.Sprint(p)
+						}
+					}()
+					src := new(gobl.Envelope)
+					if err := json.Unmarshal(before, src); err != nil {
+						ls.Err = "reparse: " + err.Error()
+						return
+					}
+					b0, _ := json.Marshal(src)
+					res, err := src.Correct(bill.WithStamps(src.Head.Stamps), bill.WithData(optsJSON))
+					if err != nil {
+						ls.Err = err.Error()
+					} else {
+						ls.Ok = true
+						ls.R = projectCorr(res, src, inv)
+					}
+					b1, _ := json.Marshal(src)
+					ls.SourceIntact = bytes.Equal(b0, b1)
+				}()
+				w.Emit(ls)
+			}
 			// ---- library, options given as one complete options value
 			lo := ev
 			lo.Path = "lib-options"
